@@ -49,6 +49,11 @@ func (k Keeper) MigrateAccount(goCtx context.Context, msg *types.MsgMigrateAccou
 		}
 	}
 
+	// the target must exist as an account: the end blocker pays matured unbonding entries to it
+	if k.accountKeeper.GetAccount(ctx, toAddress.Bytes()) == nil {
+		k.accountKeeper.SetAccount(ctx, k.accountKeeper.NewAccountWithAddress(ctx, toAddress.Bytes()))
+	}
+
 	// set record
 	k.SetMigrateRecord(ctx, fromAddress, toAddress)
 
